@@ -102,6 +102,9 @@ func (o pathOp) String() string {
 		if o.Label == "overwrite" {
 			return fmt.Sprintf("h:=Child%v;SetString%v=OW;SetChild%v=h", o.From, o.From, o.A)
 		}
+		if o.Label == "overwrite-child" {
+			return fmt.Sprintf("h:=Child%v;SetChild%v={ow:OW};SetChild%v=h", o.From, o.From, o.A)
+		}
 		return fmt.Sprintf("h:=Child%v;Remove%v;SetChild%v=h", o.From, o.From, o.A)
 	case opMergeOwn:
 		return fmt.Sprintf("Merge({%s:Child%v})", o.A.Name, o.From)
@@ -213,6 +216,10 @@ func buildPathUniverse(prop string, rich bool) *pathUniverse {
 		}
 		for _, p := range [][2]addr{{{"a", -1, true}, {"b", -1, true}}, {{"a", 0, true}, {"b", -1, true}}, {{"b", -1, true}, {"a.a", -1, true}}} {
 			u.ops = append(u.ops, pathOp{Kind: opReattach, From: p[0], A: p[1], Label: "overwrite"})
+		}
+		// ... and overwritten by another sub-config before it is attached again
+		for _, p := range [][2]addr{{{"a", -1, true}, {"b", -1, true}}, {{"a", 0, true}, {"a", 1, true}}} {
+			u.ops = append(u.ops, pathOp{Kind: opReattach, From: p[0], A: p[1], Label: "overwrite-child"})
 		}
 	}
 	return u
@@ -342,6 +349,15 @@ func (st *pathState) apply(o pathOp) *core.Violation {
 			tree.Set(st.mroot, o.From.segs(), tree.LeafN("OW"))
 			if !tree.Set(st.mroot.Clone(), o.A.segs(), tree.NilN()) {
 				return nil // (not settable any more after the overwrite: model and probe agree on skipping)
+			}
+		} else if o.Label == "overwrite-child" {
+			// the child is overwritten by another sub-config before it is attached again
+			if err := st.root.SetChild(o.From.Name, o.From.Idx, mustCfg(M{"ow": "OW"}), o.From.opts()...); err != nil {
+				return bad("overwrite-child", err.Error())
+			}
+			tree.Set(st.mroot, o.From.segs(), tree.Dict("ow", tree.LeafN("OW")))
+			if !tree.Set(st.mroot.Clone(), o.A.segs(), tree.NilN()) {
+				return nil
 			}
 		} else {
 			if _, err := st.root.Remove(o.From.Name, o.From.Idx, o.From.opts()...); err != nil {
